@@ -36,6 +36,7 @@ type Program struct {
 	ConstBranches int // branches on a constant condition whose dead side was pruned
 	Inlined       int      // call sites of helpers unknown to the reference tree that were expanded (inlinenew.go)
 	InlinedAway   []string // such helpers with no remaining use
+	Normalized    int      // functions whose merged-condition branches were threaded (xssa.NormalizeBranches)
 	Reordered     []string // functions whose parameter order was put back to the reference tree's
 	cgCache       *CG
 }
